@@ -823,8 +823,9 @@ def directed(prop):
                        expect=["pass"], mode="pass")]
         out.append(dict(tests=tests, retries=0, delay_ms=0, backoff="fixed", failfast="noff", threads=1, filter="_a",
                         run_ignored="default", sigint_at=0.4, priorities=None, groups=None))
-    if prop == "C01":
-        # an empty selection under each no-tests policy (command line and environment)
+    if prop in ("C01", "C02"):
+        # an empty selection under each no-tests policy (command line and environment); every listed test is
+        # still reported skipped
         for pol, via in (("pass", "cli"), ("warn", "env"), ("fail", "cli"), (None, None)):
             tests = [dict(bin="alpha::t1", name="t00_a", ignored=False, attempts=[{"sleep": 0.0, "exit": 0}],
                           expect=["pass"], mode="pass"),
